@@ -1,25 +1,18 @@
 SPECIFICATION Spec
 CONSTANTS
-  Unary = {u1, u2, u3}
+  Unary = {}
   Subs = {}
   Notifs = {}
-  Retry = {}
+  Retry = {r1}
   NVals = 0
-  MaxGen = 0
-  MaxFaults = 0
+  MaxGen = 1
+  MaxFaults = 1
   AllowStop = FALSE
-  AllowCancel = TRUE
+  AllowCancel = FALSE
   Reconnect = TRUE
-  MaxAttempts = 1
+  MaxAttempts = 2
   FixExitOrder = FALSE
   FixReadErr = TRUE
-  FixStaleDelete = FALSE
-
-
-
-
-
-
-
-
+  FixStaleDelete = TRUE
+INVARIANT RetryMayRepeat
 CHECK_DEADLOCK FALSE
